@@ -13,6 +13,8 @@ P_Outcome(o) ==
     IF o.kind = "dest" THEN
         /\ (o.expect.result = "rejected" => o.outcome = "rejected")
         /\ (o.expect.result = "written" => ((o.outcome = "written" /\ o.destOK) \/ (o.fault = "cut" /\ o.outcome = "cut")))
+        \* (a dangling link where the destination would be: go ahead - at the destination itself - or fail)
+        /\ (o.expect.result = "any" => (o.outcome = "written" => o.destOK))
     ELSE
         /\ (o.expect.member = "extract" => o.outcome = "written")
         /\ (o.expect.member = "abort" => o.outcome \in {"aborted", "error", "rejected"})
